@@ -110,6 +110,7 @@ func (c09) Gen(r *Rng, tier string, run int) *Trace {
 }
 
 type c09state struct {
+	reach     map[int]string // objects nested (at any depth) in the fenced one: their dumps at the fence
 	target    int
 	fence     string // dump of the fenced object when the fence went up
 	up        bool
@@ -140,10 +141,45 @@ func stripMoved(d string) string {
 	return d
 }
 
+var objNameRe = regexp.MustCompile(`\b([SC])(\d+)\b`)
+
+// reachable: the world objects nested at any depth below object i, found by
+// walking the slot / expression part of the raw dumps.
+func reachable(x *Exec, i int) map[int]string {
+	out := map[int]string{}
+	var walk func(j int)
+	walk = func(j int) {
+		_, slots := splitDump(x.w.dump(j))
+		for _, m := range objNameRe.FindAllStringSubmatch(slots, -1) {
+			var k int
+			fmt.Sscanf(m[2], "%d", &k)
+			if k == i || k >= len(x.w.objs) {
+				continue
+			}
+			if _, seen := out[k]; !seen {
+				out[k] = normStamp(x.w.dump(k))
+				walk(k)
+			}
+		}
+	}
+	walk(i)
+	return out
+}
+
 func (p c09) check(x *Exec, op Op, out Outcome, who string) {
 	st := x.state.(*c09state)
 	if !st.up {
 		return
+	}
+	if op.Obj == st.target && op.M != "Init" {
+		// a call on the read-only instance must not reach through it either:
+		// what is nested below it is part of what it shows (String, Unmarshal)
+		for k, was := range st.reach {
+			if now := normStamp(x.w.dump(k)); now != was {
+				x.fail("nested-changed-under-fence:"+op.M, fmt.Sprintf("%s%s on read-only %s changed %s, which is nested in it (%s):\n at fence: %s\n now:      %s", who, op, x.w.objs[st.target].name, x.w.objs[k].name, diffFields(was, now), was, now))
+				return
+			}
+		}
 	}
 	now := normStamp(x.w.dump(st.target))
 	if op.M == "Init" && op.Obj == st.target {
@@ -173,6 +209,7 @@ func (p c09) AfterOp(x *Exec, task, idx int, op Op, out Outcome) {
 	case "fence":
 		st.target = op.Obj
 		st.fence = normStamp(x.w.dump(op.Obj))
+		st.reach = reachable(x, op.Obj)
 		st.up = true
 		if !strings.Contains(st.fence, " ") {
 			panic("harness: empty fence dump")
